@@ -650,3 +650,33 @@ Proof.
   exists long_rep, 38000, long_cfg, 0, 34500. split; [exact long_rep_wf|].
   vm_compute. repeat split; try reflexivity; discriminate.
 Qed.
+
+(** * An availabilityTimeOffset longer than the first segment
+
+    [atoMS * ts <= 1000 * en_0] in [timeline_is_window] is a real hypothesis: 4 x 2 s loop,
+    availabilityTimeOffset 2.5 s, now = 7.9 s. Segment 4 (the first of the second loop, ends at 10 s)
+    is available from 7.5 s on and the server answers 200, but the MPD still ends with segment 3
+    until the wall clock itself wraps at 8 s: the relative time 7.9 + 2.5 s lies beyond the end of
+    the table, where findFirstFinishedSegIdx can only answer "the last one of this loop". *)
+Definition ato_rep : rep :=
+  {| segs := [ {| st := 0; en := 180000; snr := 1 |}; {| st := 180000; en := 360000; snr := 2 |};
+               {| st := 360000; en := 540000; snr := 3 |}; {| st := 540000; en := 720000; snr := 4 |} ];
+     ts := 90000 |}.
+Definition ato_cfg : tcfg := {| startS := 0; startNr := 0; tsbdS := 60; ato := Some 2500 |}.
+
+Lemma ato_rep_wf : wf ato_rep 8000.
+Proof. constructor; cbn; try lia; try discriminate; repeat constructor; cbn; lia. Qed.
+
+Lemma big_ato_witness :
+  exists r loopMS c atoMS now,
+    wf r loopMS /\ startS c * 1000 <= now /\ 0 <= tsbdS c /\ ato c = Some atoMS /\ 0 <= atoMS /\
+    1000 * en (segAt r 0) < atoMS * ts r /\
+    let se := generateTimelineEntries r (calcWrapTimes loopMS c now (1000 * tsbdS c)) atoMS in
+    0 <= se_lsi_nr se < window_last r c atoMS now /\
+    exists m, lookup r loopMS c ByTime (se_lsi_start se + se_lsi_dur se) now = TOk m /\
+              newNr m = startNr c + (se_lsi_nr se + 1).
+Proof.
+  exists ato_rep, 8000, ato_cfg, 2500, 7900. split; [exact ato_rep_wf|].
+  vm_compute. repeat split; try reflexivity; try discriminate.
+  eexists. split; reflexivity.
+Qed.
